@@ -16,7 +16,7 @@ pub fn props() -> Vec<Prop> {
             id: "C17",
             run: c17,
             tools: None,
-            rule: "one child process per environment (env_clear + explicit HOME, V1, V2 each in {unset, empty, x, x/y, /abs}: 125 environments; thorough adds multi-byte and trailing-separator values) evaluating sys::expand, PathExt::expand and both backends' abs() on every template of up to 4 (quick) / 5 (thorough) tokens from {a, /, ~, $V1, ${V1}, $V2, $, ${}, $UNSET}; the parent compares each line with a string-level reference of the statement (PathBuf::push re-assembly as pinned by test_pathext_expand). distinct_nontrivial = distinct (token-kind multiset, environment class, outcome class) triples with at least one ~ or $.",
+            rule: "one child process per environment (env_clear + explicit HOME, V1, V2 each in {unset, empty, x, x/y, /abs}: 125 environments; thorough uses 12 values each: 1728 environments) evaluating sys::expand, PathExt::expand and both backends' abs() on every template of up to 4 (quick) / 5 (thorough) tokens from {a, /, ~, $V1, ${V1}, $V2, $, ${}, $UNSET}; the parent compares each line with a string-level reference of the statement (PathBuf::push re-assembly as pinned by test_pathext_expand). distinct_nontrivial = distinct (token-kind multiset, environment class, outcome class) triples with at least one ~ or $.",
             assumptions: &[
                 "variable names are delimited unambiguously in templates ($NAME followed by / $ or end, ${NAME} anywhere); undelimited / unclosed forms are not judged",
                 "values are UTF-8",
@@ -216,8 +216,9 @@ fn std_comps(s: &str) -> Vec<String> {
 fn c17(ctx: &Ctx, rep: &mut Report) {
     let mut vals: Vec<Option<&str>> = vec![None, Some(""), Some("x"), Some("x/y"), Some("/abs")];
     if ctx.thorough {
-        vals.push(Some("/h/é"));
-        vals.push(Some("/t/"));
+        for v in ["/h/é", "/t/", "..", "x/../y", "/", "a b", "€"] {
+            vals.push(Some(v));
+        }
     }
     let max = if ctx.thorough { 5 } else { 4 };
     let mut templates: Vec<String> = vec![];
@@ -438,7 +439,7 @@ fn c18(ctx: &Ctx, rep: &mut Report) {
         }
     }
     let mut rng = Rng::new(ctx.seed, "c18-configs");
-    let nrand = if ctx.thorough { 20_000 } else { 500 };
+    let nrand = if ctx.thorough { 100_000 } else { 500 };
     for _ in 0..nrand {
         configs.push(vars.iter().map(|(_, v)| rng.below(v.len())).collect());
     }
